@@ -9,8 +9,9 @@
   *characters* `Display` writes (`Disp.showExpr`, compared with the real `to_string()` on every correspondence case)
   lex to exactly `dispToks` (`text_lexes_to_printed_tokens`, Lemmas/LexCompose + LexShow: the lexer is compositional
   on printed text) and so parse back to the tree.  What remains hypothesis:
-   * float and decimal leaves: `LitOK` (the token converts back) and `LitText` (the text is one token) — the library's
-     shortest-digits printing and its parsing are not modelled; integer, string, boolean and none leaves are proved;
+   * float leaves: `LitOK` (the token converts back) and `LitText` (the text is one token) — the library's
+     shortest-digits printing and its parsing are not modelled; integer, decimal (`dec_leaf_ok`, Lemmas/DecText),
+     string, boolean and none leaves are proved;
    * names (`NameOK`): a letter, then identifier characters of which the first is not a digit, not a keyword — what the
      lexer's IDENT rule produces, minus the corner `i5x` / `f1x` (identifiers by longest match, not covered).
   Planning this proof exposed a genuine defect (`f .5` printed `(f.5)`, a float literal): repaired by fix commit 159fa22,
@@ -90,6 +91,11 @@ theorem int_leaf_ok (o : Oracle) (sf : F64 → Str) (n : Int) (h : I128.inRange 
 /-- string leaves: every string (quotes, backslashes, control characters, any code point) -/
 theorem string_leaf_ok (o : Oracle) (sf : F64 → Str) (s : Str) : LitOK o sf (.str s) := by
   simp only [LitOK, litTok]; exact str_token_value o s
+
+/-- decimal leaves: every decimal in normal form (96-bit mantissa, scale ≤ 28, no negative zero) is printed as a token
+    that converts back to it, scale included -/
+theorem dec_leaf_ok (o : Oracle) (sf : F64 → Str) (d : Dec) (h : LexC.DecWF d) : LitOK o sf (.dec d) := by
+  simp only [LitOK, litTok]; exact LexC.dec_token_value o d h
 
 theorem bool_none_leaf_ok (o : Oracle) (sf : F64 → Str) (b : Bool) : LitOK o sf (.bool b) ∧ LitOK o sf .none := by
   simp [LitOK]
